@@ -37,7 +37,7 @@ func encPath(p string) string {
 // opSpec is one operation of the model vocabulary.
 //
 //	P probe | C cd <rel> | K cd $WORK | E env <k> <v> | M mkdir <rel> | Y cp <src> <dst> | R rm <rel> | H chmod <rel> <mode>
-//	D regdefer <id> | B bg <name> <kind s|o|b> <neg 0|1> <label> | F fg report | W wait | w wait <name> | X failing line | S skip | T stop
+//	D regdefer <id> [f|s|p: the function ends in FailNow / Skip / panic] | B bg <name> <kind s|o|b> <neg 0|1> <label> | F fg report | W wait | w wait <name> | X failing line | S skip | T stop
 type opSpec struct {
 	T string   `json:"t"`
 	A []string `json:"a,omitempty"`
@@ -63,6 +63,9 @@ func (o opSpec) lines() []string {
 	case "H":
 		return []string{"chmod " + o.A[1] + " " + o.A[0]}
 	case "D":
+		if len(o.A) > 1 && o.A[1] != "" {
+			return []string{"regdefer " + o.A[0] + " " + map[string]string{"f": "failnow", "s": "skip", "p": "panic"}[o.A[1]]}
+		}
 		return []string{"regdefer " + o.A[0]}
 	case "B":
 		l := "exec vh bg " + o.A[1] + " " + o.A[3] + " &" + o.A[0]
@@ -103,6 +106,9 @@ func (o opSpec) enc() string {
 	case "Y":
 		return "Y:" + encPath(o.A[0]) + ":" + encPath(o.A[1])
 	case "D":
+		if len(o.A) > 1 && o.A[1] != "" {
+			return "D:" + o.A[0] + ":" + o.A[1]
+		}
 		return "D:" + o.A[0]
 	case "B":
 		return "B:" + hx(o.A[0]) + ":" + o.A[1] + ":" + o.A[2]
@@ -203,6 +209,8 @@ type genState struct {
 	nLabel int
 	nDefer int
 	done   bool
+
+	abortUsed bool
 }
 
 type genBg struct{ name, kind string }
@@ -350,6 +358,12 @@ func (g *genState) op() (opSpec, bool) {
 		return opSpec{T: "R", A: []string{rel}}, true
 	case k < 70:
 		g.nDefer++
+		// at most one deferred function per script that does not return normally: it calls FailNow or
+		// Skip on the T (runtime.Goexit) or panics; the functions registered before it must still run
+		if !g.abortUsed && r.Intn(4) == 0 {
+			g.abortUsed = true
+			return opSpec{T: "D", A: []string{strconv.Itoa(g.nDefer), []string{"f", "s", "p"}[r.Intn(3)]}}, true
+		}
 		return opSpec{T: "D", A: []string{strconv.Itoa(g.nDefer)}}, true
 	case k < 80: // background helper
 		kind := []string{"s", "s", "o", "b"}[r.Intn(4)]
@@ -496,30 +510,72 @@ func genIsoBatch(seed int64, index int) *isoBatch {
 		sp.SetupEnv = append(sp.SetupEnv, [2]string{"FOO", "from-setup"})
 	}
 	n := 4 + r.Intn(13)
+	// File names. RunT derives the subtest name (and so the work directory) from the base name and must
+	// keep them apart: equal base names (same name with .txt and .txtar, or in different directories),
+	// names that literally contain "#1" / "#2", given through Params.Files in any order or found through
+	// Params.Dir (sorted, '#' before '.').
+	var fileNames []string
+	nameMode := r.Intn(6)
+	fam := []string{"foo", "n", "alpha"}[r.Intn(3)]
+	clash := []string{fam + ".txt", fam + ".txtar", fam + "#1.txt", fam + "#1.txtar", fam + "#2.txt", fam + "#1#1.txt", fam + "#2.txtar"}
+	r.Shuffle(len(clash), func(i, j int) { clash[i], clash[j] = clash[j], clash[i] })
+	switch nameMode {
+	case 0, 1: // one directory (Params.Dir when nameMode == 0): distinct file names, clashing base names
+		k := 3 + r.Intn(3)
+		for i := 0; i < n; i++ {
+			if i < k {
+				fileNames = append(fileNames, "s0/"+clash[i])
+			} else {
+				ext := ".txt"
+				if r.Intn(3) == 0 {
+					ext = ".txtar"
+				}
+				fileNames = append(fileNames, "s0/"+scriptBaseNames[i%len(scriptBaseNames)]+ext)
+			}
+		}
+		if nameMode == 0 {
+			sp.UseDir = true
+			sort.Strings(fileNames) // os.ReadDir order
+		} else {
+			r.Shuffle(len(fileNames), func(i, j int) { fileNames[i], fileNames[j] = fileNames[j], fileNames[i] })
+		}
+	case 2: // several directories, the same file names again and again, plus names with '#'
+		for i := 0; i < n; i++ {
+			fileNames = append(fileNames, fmt.Sprintf("d%d/%s", i/len(clash), clash[i%len(clash)]))
+		}
+		if r.Intn(2) == 0 {
+			for i, j := 0, len(fileNames)-1; i < j; i, j = i+1, j-1 {
+				fileNames[i], fileNames[j] = fileNames[j], fileNames[i]
+			}
+		}
+	default:
+		for i := 0; i < n; i++ {
+			base := scriptBaseNames[i%len(scriptBaseNames)]
+			dir := "s0"
+			// sometimes the same base name in another directory: RunT must disambiguate (name#1)
+			if i > 0 && r.Intn(6) == 0 {
+				base = scriptBaseNames[r.Intn(i)]
+				dir = fmt.Sprintf("s%d", i)
+			}
+			ext := ".txt"
+			if r.Intn(4) == 0 {
+				ext = ".txtar"
+			}
+			fileNames = append(fileNames, dir+"/"+base+ext)
+		}
+		// distinct paths
+		seen := map[string]bool{}
+		for i := range fileNames {
+			for seen[fileNames[i]] {
+				fileNames[i] = fmt.Sprintf("u%d/%s", i, fileNames[i][strings.Index(fileNames[i], "/")+1:])
+			}
+			seen[fileNames[i]] = true
+		}
+	}
 	for i := 0; i < n; i++ {
 		s := genScript(r, sp.ContinueOnError, i)
-		base := scriptBaseNames[i%len(scriptBaseNames)]
-		dir := "s0"
-		// sometimes the same base name in another directory: RunT must disambiguate (name#1)
-		if i > 0 && r.Intn(6) == 0 {
-			base = scriptBaseNames[r.Intn(i)]
-			dir = fmt.Sprintf("s%d", i)
-		}
-		ext := ".txt"
-		if r.Intn(4) == 0 {
-			ext = ".txtar"
-		}
-		s.File = dir + "/" + base + ext
+		s.File = fileNames[i]
 		sp.Scripts = append(sp.Scripts, s)
-	}
-	// distinct file paths (same base + same dir would be the same file)
-	seen := map[string]bool{}
-	for i := range sp.Scripts {
-		for seen[sp.Scripts[i].File] || seen[strings.TrimSuffix(strings.TrimSuffix(sp.Scripts[i].File, ".txt"), ".txtar")] {
-			sp.Scripts[i].File = fmt.Sprintf("u%d/%s", i, sp.Scripts[i].File[strings.Index(sp.Scripts[i].File, "/")+1:])
-		}
-		seen[sp.Scripts[i].File] = true
-		seen[strings.TrimSuffix(strings.TrimSuffix(sp.Scripts[i].File, ".txt"), ".txtar")] = true
 	}
 	return b
 }
@@ -531,6 +587,18 @@ func genIsoBatch(seed int64, index int) *isoBatch {
 func genDeadlineBatch(seed int64, dms int, variant int) *batchSpec {
 	r := rand.New(rand.NewSource(seed*31 + int64(dms)*7 + int64(variant)))
 	sp := &batchSpec{Mode: "deadline", DeadlineMs: dms, Verbose: variant%2 == 1}
+	if variant >= 200 {
+		// Subtests run ONE AFTER THE OTHER (as with cmd/testscript's runT, `-parallel 1`, or more scripts
+		// than slots): the first script takes 60% of the time and exits, the second then blocks for ever.
+		// The deadline is absolute: the second must still be interrupted at RunT-call time + D - 2g.
+		sp.Sequential = true
+		d := dms * 6 / 10
+		sp.Scripts = append(sp.Scripts,
+			scriptSpec{Kind: "early", File: "d/a-early.txt", Delta: d, Ops: []opSpec{{T: "raw", A: []string{fmt.Sprintf("exec vh dl early S0 %d", d)}}}},
+			scriptSpec{Kind: "quit", File: "d/b-quit.txt", Ops: []opSpec{{T: "raw", A: []string{"exec vh dl quit S1"}}}},
+			scriptSpec{Kind: "pass", File: "d/c-pass.txt", Ops: []opSpec{{T: "raw", A: []string{"mkdir x"}}, {T: "raw", A: []string{"exists x"}}}})
+		return sp
+	}
 	if variant >= 100 {
 		// the racing zone: foreground helpers that exit by themselves at about the moment the context fires
 		g := dms / 20
